@@ -59,7 +59,7 @@ def spelled(titles, si, r, c, k):
 
 BAD_ROWS = ['x', '1.0', ' 7', '+7', '1_0', '\u0667', '\uff11', '0', '-1', '1e1', '0x1', 'A', '7 ', '\n3']
 BAD_COLS = ['1', 'A1', 'a-b', ' ', 'ZZZZ', 'AAAA', '\u0410']
-BAD_TITLES = ['no such sheet', '', ' ']
+BAD_TITLES = ['no such sheet', '', ' ', 7, -1, 99]
 
 
 def probe_malformed(ctx, ex, titles, case0):
@@ -69,6 +69,12 @@ def probe_malformed(ctx, ex, titles, case0):
     from excel2pycl import Cell
     r = ctx.r
     probes = [(titles[0], 'A', t) for t in BAD_ROWS] + [(titles[0], c, '1') for c in BAD_COLS] + [(t, 'A', '1') for t in BAD_TITLES]
+    for t in BAD_TITLES:
+        o = pipeline.guarded(lambda: ex.get_sheet(t), 'evaluate')
+        r.ev()
+        r.count('malformed_address_probes')
+        if o.ok or o.kind != pipeline.LIB_EXC:
+            report(r, ID, None, dict(case0, api='get_sheet', address=[t]), o.brief(), 'the cell exception of the library', monitor='malformed-address')
     for (t, c, row) in probes:
         for api in ('get_cell', 'get_cells', 'set_cells'):
             def call():
@@ -83,7 +89,7 @@ def probe_malformed(ctx, ex, titles, case0):
             r.count('malformed_address_probes')
             if o.ok:
                 loose = row.strip().lstrip('+').replace('_', '')
-                named = t == titles[0] and c == 'A' and loose.isascii() and loose.isdigit() and int(loose) >= 1
+                named = isinstance(t, str) and t == titles[0] and c == 'A' and loose.isascii() and loose.isdigit() and int(loose) >= 1
                 if api == 'set_cells' or not named:
                     report(r, ID, None, dict(case0, api=api, address=[t, c, row]), o.brief(), 'the cell exception of the library', monitor='malformed-address')
                     if api == 'set_cells':
@@ -430,11 +436,53 @@ def semantic_book(rng, kind):
 SEM_KINDS = ['c11', 'c12', 'nests', 'c16', 'c17', 'c14', 'dates', 'mixed', 'nests', 'c12', 'dates']
 
 
+def run_deepeval(ctx):
+    """a running total down a column, whole-file translation, its last row asked through the three calls and from callers of different
+    stack depth: one value from all of them (200 rows), or - the recorded finding for chains of several hundred rows - RecursionError
+    from those whose stack is too short (every dependency level is two to four Python frames and nothing else bounds the depth).  A
+    VALUE that differs between the calls is never the finding."""
+    from excel2pycl import Cell, Executor
+    r = ctx.r
+    for n in ((200, 560) if ctx.tier == 'quick' else (100, 200, 300, 420, 560, 700)):
+        cells = {'B1': '=A1'}
+        for i in range(1, n + 1):
+            cells[f'A{i}'] = 1
+        for i in range(2, n + 1):
+            cells[f'B{i}'] = f'=B{i - 1}+A{i}'
+        spec = wbspec.spec(wbspec.sheet('S', cells))
+        book = pipeline.Book(spec, ctx.workdir, name=f'deepeval{n}')
+        r.count('deep_evaluation_chains')
+        case = {'spec': {'chain_rows': n, 'formula': 'Bn = B(n-1)+An'}, 'cell': f'B{n}'}
+        if book.cls is None:
+            report(r, ID, None, case, book.whole.brief(), 'a loadable class', monitor='translate')
+            continue
+        ex = Executor().set_executed_class(class_object=book.cls)
+
+        def deeper(fn, k):
+            return deeper(fn, k - 1) if k else fn()
+        calls = {'get_cell': lambda: ex.get_cell(Cell(0, 1, n - 1)).value, 'get_cells': lambda: ex.get_cells([Cell(0, 0, 0), Cell(0, 1, n - 1)])[1].value,
+                 'get_sheet': lambda: ex.get_sheet(0)[n - 1][1].value, 'get_cell+100 frames': lambda: deeper(lambda: ex.get_cell(Cell('S', 'B', str(n))).value, 100),
+                 'get_cell+300 frames': lambda: deeper(lambda: ex.get_cell(Cell(0, 1, n - 1)).value, 300)}
+        outs = {k: pipeline.guarded(f, 'evaluate') for k, f in calls.items()}
+        r.ev(len(outs))
+        r.nt(('deepeval', n))
+        values = {k: o.value for k, o in outs.items() if o.ok}
+        failures = {k: o for k, o in outs.items() if not o.ok}
+        if any(v != n or type(v) is not int for v in values.values()):
+            report(r, ID, None, case, {k: o.brief() for k, o in outs.items()}, n, monitor='apis-agree')
+        elif failures:
+            only_recursion = all(o.exc_name == 'RecursionError' for o in failures.values())
+            report(r, ID, 'KF-C08-deep-chain-evaluation-recursionerror' if (only_recursion and n >= 400) else None, case,
+                   {k: o.brief() for k, o in outs.items()}, f'{n} from every call', monitor='apis-agree')
+    r.sample({'deep_evaluation': 'Bn = B(n-1)+An over 200 / 560 rows through get_cell, get_cells, get_sheet, +100 and +300 caller frames'})
+
+
 def plan(tier, seed):
     n = 160 if tier == 'quick' else 1920
     sh = [{'n': n // 16, 'k': k, 'calls': 60 if tier == 'quick' else 200} for k in range(16)]
     m = 72 if tier == 'quick' else 960
     sh += [{'n': m // 8, 'k': 100 + k, 'calls': 80 if tier == 'quick' else 250, 'semantic': True} for k in range(8)]
+    sh.append({'deepeval': 1, 'n': 0, 'k': 0})
     return sh
 
 
@@ -448,6 +496,8 @@ def run_shard(shard, ctx):
         for d in boundary.disagreements()[:3]:
             r.violation('contract:' + d['contract'], shard['replay'], d['detail'], 'query leaves overrides and sizes unchanged')
         return
+    if 'deepeval' in shard:
+        return run_deepeval(ctx)
     for i in range(shard['n']):
         boundary.reset()
         kind_ = SEM_KINDS[(i + shard['k'] * 4) % len(SEM_KINDS)]
